@@ -29,8 +29,13 @@ FindClose(q) == IF q + Len(Cfg.cmtc) > N THEN 0
 SkipCmt(p) == IF Cfg.cmto # <<>> /\ IsPrefixAt(Inp, p, Cfg.cmto)
               THEN LET q == FindClose(p + Len(Cfg.cmto)) IN IF q = 0 THEN p ELSE q
               ELSE p
-RECURSIVE Skip(_)
-Skip(p) == LET q == SkipCmt(SkipEol(SkipWs(p))) IN IF q = p THEN p ELSE Skip(q)
+RECURSIVE SkipC(_)
+SkipC(p) == LET q == SkipCmt(SkipEol(SkipWs(p))) IN IF q = p THEN p ELSE SkipC(q)
+\* trace mode for arbitrary real grammars: whitespace and comments are regular expressions of the parse configuration; the harness
+\* tabulates the same fixpoint with Python's re (harness/frompeg.py: skip_table) and the specification reads the table
+Skip(p) == IF "skip" \in DOMAIN Cfg THEN Cfg.skip[p + 1] ELSE SkipC(p)
+\* oracle patterns (trace mode): Cfg.pm[id][p + 1] = [n |-> matched length or -1, v |-> value]
+OPat(e, p) == Cfg.pm[e.id][p + 1]
 
 IsNameChar(c) == InSeq(c, Cfg.alnum) \/ InSeq(c, Cfg.namechars)
 IsNameTok(s)  == /\ Len(s) > 0
@@ -149,6 +154,7 @@ E(e, p, ns, sd, d) ==
     [] e.op = "pat" -> LET n == ClassRun(p, e.cls, IF e.many THEN N ELSE 1) IN
                        IF n < e.min THEN F
                        ELSE S(p + n, <<Str(SubText(p, p + n))>>, Str(SubText(p, p + n)), ns, FALSE)
+    [] e.op = "opat" -> LET m == OPat(e, p) IN IF m.n < 0 THEN F ELSE S(p + m.n, <<m.v>>, m.v, ns, FALSE)
     [] e.op = "meta" -> LET r == MetaMatch(e.kind, Skip(p)) IN
                         IF r.ok THEN S(r.p, <<r.v>>, r.v, ns, FALSE) ELSE F
     [] e.op = "dot" -> IF p < N THEN S(p + 1, <<Str(<<Inp[p + 1]>>)>>, Str(<<Inp[p + 1]>>), ns, FALSE) ELSE F
